@@ -9,6 +9,7 @@ import (
 	"sort"
 	"strings"
 	"sync"
+	"time"
 
 	"github.com/pgavlin/dawn/internal/verifhook"
 	"github.com/pgavlin/dawn/util"
@@ -21,6 +22,64 @@ import (
 type Env struct {
 	Base string
 	mu   sync.Mutex
+
+	// Order, when non-empty, serialises package loads: a BUILD file's vf.gate(pkg) waits until
+	// every package listed before pkg has called vf.done.
+	Order    []string
+	gateMu   sync.Mutex
+	gateCond *sync.Cond
+	doneSet  map[string]bool
+}
+
+func (e *Env) gate(pkg string) {
+	if len(e.Order) == 0 {
+		return
+	}
+	e.gateMu.Lock()
+	defer e.gateMu.Unlock()
+	if e.gateCond == nil {
+		e.gateCond = sync.NewCond(&e.gateMu)
+		e.doneSet = map[string]bool{}
+		// safety valve: a package that fails to load never calls done
+		go func() {
+			for i := 0; i < 200; i++ {
+				time.Sleep(50 * time.Millisecond)
+				e.gateMu.Lock()
+				e.gateCond.Broadcast()
+				e.gateMu.Unlock()
+			}
+		}()
+	}
+	deadline := time.Now().Add(5 * time.Second)
+	for {
+		ready := true
+		for _, p := range e.Order {
+			if p == pkg {
+				break
+			}
+			if !e.doneSet[p] {
+				ready = false
+			}
+		}
+		if ready || time.Now().After(deadline) {
+			return
+		}
+		e.gateCond.Wait()
+	}
+}
+
+func (e *Env) done(pkg string) {
+	if len(e.Order) == 0 {
+		return
+	}
+	e.gateMu.Lock()
+	if e.gateCond == nil {
+		e.gateCond = sync.NewCond(&e.gateMu)
+		e.doneSet = map[string]bool{}
+	}
+	e.doneSet[pkg] = true
+	e.gateCond.Broadcast()
+	e.gateMu.Unlock()
 }
 
 func (e *Env) Root() string    { return filepath.Join(e.Base, "root") }
@@ -107,6 +166,14 @@ func (e *Env) VF() *starlarkstruct.Module {
 					return nil, err
 				}
 			}
+			return starlark.None, nil
+		}),
+		"gate": b("gate", func(_ *starlark.Thread, args starlark.Tuple) (starlark.Value, error) {
+			e.gate(str(args[0]))
+			return starlark.None, nil
+		}),
+		"done": b("done", func(_ *starlark.Thread, args starlark.Tuple) (starlark.Value, error) {
+			e.done(str(args[0]))
 			return starlark.None, nil
 		}),
 		"point": b("point", func(_ *starlark.Thread, args starlark.Tuple) (starlark.Value, error) {
